@@ -447,7 +447,7 @@ class AClientHarness:
     impl = 'async'
 
     def __init__(self, server_config=None, faults=(), client_kwargs=None, latency=2.0 ** -6,
-                 app_kwargs=None, server='async'):
+                 app_kwargs=None, server='async', own_session=False):
         import engineio
         self.latency = latency
         self.comp = None
@@ -469,7 +469,19 @@ class AClientHarness:
         kw.setdefault('logger', SilentLogger())
         kw.setdefault('handle_sigint', False)
         self.session = FakeAioSession(self)
-        self.client = engineio.AsyncClient(http_session=self.session, **kw)
+        if own_session:
+            # the client creates (and, at the end of every connection, closes) its own session:
+            # aiohttp.ClientSession() as seen by the client module yields our fake
+            import engineio.async_client as eac
+            import aiohttp as real_aiohttp
+            fake_mod = types.ModuleType('aiohttp')
+            fake_mod.__dict__.update(real_aiohttp.__dict__)
+            fake_mod.ClientSession = lambda *a, **k: FakeAioSession(self)
+            self._eac, self._real_aiohttp = eac, eac.aiohttp
+            eac.aiohttp = fake_mod
+            self.client = engineio.AsyncClient(**kw)
+        else:
+            self.client = engineio.AsyncClient(http_session=self.session, **kw)
 
         self.handler_delay = {}      # event -> virtual seconds the client's handler takes
 
@@ -561,6 +573,8 @@ class AClientHarness:
         return pred()
 
     def teardown(self):
+        if getattr(self, '_eac', None) is not None:
+            self._eac.aiohttp = self._real_aiohttp      # undo the module patch
         self.world.teardown()
 
 
@@ -601,6 +615,8 @@ class FakeAioSession:
 
     async def _http(self, method, url, headers=None, data=None, timeout=None, ssl=None):
         import aiohttp
+        if self.closed:
+            raise RuntimeError('Session is closed')
         h = self.h
         total = getattr(timeout, 'total', timeout)
         scheme, netloc, path, query = split_url(url)
@@ -650,6 +666,8 @@ class FakeAioSession:
 
     async def ws_connect(self, url, headers=None, timeout=None, ssl=None, **extra):
         import aiohttp
+        if self.closed:
+            raise RuntimeError('Session is closed')
         h = self.h
         scheme, netloc, path, query = split_url(url)
         rec = {'t': h.clock.now, 'url': url, 'scheme': scheme, 'netloc': netloc, 'path': path,
